@@ -141,7 +141,11 @@ class Config:
         def substitute_config_dir(s):
             # Replace string values containing local config_dir with the provided one
             if replace_config_dir is not None and isinstance(s, str):
-                return s.replace(local_config_dir, replace_config_dir)
+                s = s.replace(local_config_dir, replace_config_dir)
+            if isinstance(s, str):
+                # Values are already interpolated, so escape literal dollar signs in order for
+                # the dict to be readable again by Config(config_dict=...).
+                s = s.replace("$", "$$")
             return s
 
         def convert_to_dict(path, obj):
